@@ -10,7 +10,7 @@ partial def kwBranches (j : Json) (depth : Nat) : List String :=
     let here := o.toList.filterMap (fun (k, _) =>
       if ["type", "nullable", "enum", "format", "minimum", "maximum", "exclusiveMinimum", "exclusiveMaximum", "multipleOf",
           "minLength", "maxLength", "pattern", "minItems", "maxItems", "uniqueItems", "items", "properties", "required",
-          "additionalProperties", "minProperties", "maxProperties", "allOf", "anyOf", "oneOf", "not", "discriminator", "$ref"].contains k
+          "additionalProperties", "minProperties", "maxProperties", "allOf", "anyOf", "oneOf", "not", "discriminator", "$ref", "readOnly", "writeOnly"].contains k
       then some (if depth == 0 then s!"kw.{k}" else s!"kw.nested.{k}") else none)
     let deeper := o.toList.flatMap (fun (k, v) =>
       match v with
@@ -33,7 +33,9 @@ def handle (j : Json) : Json :=
   let m := visit env s v
   let sp := satB env s v
   let br := (kwBranches sj 0).eraseDups ++ [valKind v] ++ (if m then ["accept"] else ["reject"]) ++
-    (if s.shortcut then ["shortcut"] else [])
+    (if s.shortcut then ["shortcut"] else []) ++
+    (if env.asreq then ["ctx.asreq"] else []) ++ (if env.asrep then ["ctx.asrep"] else []) ++
+    (if env.roOff || env.woOff then ["ctx.switchoff"] else [])
   jobj [("model", jobj [("ok", Json.bool m)]), ("spec", jobj [("sat", Json.bool sp)]),
         ("excl", Json.arr #[]), ("branches", jstrs br)]
 
